@@ -16,14 +16,16 @@ V == {1, 2}
 VOps ==
   {[op |-> n, o |-> o] : n \in {"new_empty", "new_ev", "assign_ev", "visit", "destroy"}, o \in O}
   \cup {[op |-> n, o |-> o, val |-> x, throw |-> t] : n \in {"new_a", "new_b", "new_c", "assign_a", "assign_b", "assign_c"}, o \in O, x \in V, t \in BOOLEAN}
+  \cup {[op |-> n, o |-> o, val |-> x] : n \in {"new_i", "assign_i"}, o \in O, x \in {7}}
   \cup {[op |-> n, o |-> o, p |-> p, throw |-> t] : n \in {"new_copy", "assign_copy"}, o \in O, p \in O, t \in BOOLEAN}
   \cup {[op |-> n, o |-> o, p |-> p] : n \in {"new_move", "assign_move"}, o \in O, p \in O}
-  \cup {[op |-> "become", o |-> o, idx |-> k] : o \in O, k \in {-2, -1, 0, 1, 2}}
+  \cup {[op |-> "become", o |-> o, idx |-> k] : o \in O, k \in {-2, -1, 0, 1, 2, 3}}
 OOps ==
   {[op |-> n, o |-> o] : n \in {"new_empty", "clear", "take", "destroy"}, o \in O}
   \* (throwing element constructors are part of C12's quantifier only: Optional's storage constructor is noexcept)
   \cup {[op |-> n, o |-> o, val |-> x] : n \in {"new_val", "assign_val", "new_rval", "assign_rval"}, o \in O, x \in V}
   \cup {[op |-> n, o |-> o, p |-> p] : n \in {"new_copy", "assign_copy", "new_move", "assign_move"}, o \in O, p \in O}
+OConvOps == {[op |-> n, o |-> o, val |-> x, srcempty |-> se] : n \in {"assign_conv_move", "assign_conv_copy"}, o \in O, x \in V, se \in BOOLEAN}
 ROps ==
   OOps \cup {[op |-> n, o |-> o, val |-> x] : n \in {"new_err", "assign_err"}, o \in O, x \in {0, 1, 2}}
 HOps(st) ==
@@ -45,7 +47,7 @@ Step(op) ==
              [] Machine = "uhandle" -> HNext(st, op)
 Next ==
   /\ Len(hist) < Depth
-  /\ \E op \in (CASE Machine = "variant" -> VOps [] Machine = "optional" -> OOps [] Machine = "result" -> ROps
+  /\ \E op \in (CASE Machine = "variant" -> VOps [] Machine = "optional" -> OOps \cup OConvOps [] Machine = "result" -> ROps
                   [] Machine = "uhandle" -> HOps(st)) :
        /\ CASE Machine = "variant" -> VPre(st, op) [] Machine = "optional" -> OPre(st, op)
             [] Machine = "result" -> RPre(st, op) [] Machine = "uhandle" -> HPre(st, op)
@@ -64,7 +66,7 @@ Admitted ==
 HandleInv == Machine = "uhandle" => (HClosedOnce(st) /\ HUnique(st))
 \* state-shape invariants of the other machines
 ShapeInv ==
-  /\ Machine = "variant" => \A s \in Slots : st[s] = None \/ (st[s].i \in {-1, 0, 1} /\ (st[s].i = -1 => st[s].v = 0))
+  /\ Machine = "variant" => \A s \in Slots : st[s] = None \/ (st[s].i \in {-1, 0, 1, 2} /\ (st[s].i = -1 => st[s].v = 0))
   /\ Machine = "result" => \A s \in Slots : st[s] = None \/ st[s].s \in {"empty", "val"} \/ (st[s].s = "err" /\ st[s].c # 0)
 Emit == (Emitting /\ Len(hist) = Depth) => PrintT(ToJson(hist))
 =============================================================================
